@@ -294,6 +294,26 @@ var _ = a.A + b.B
 // e doc s
 var e = errors.New("x") // eol e s
 `},
+	{name: "directive-neighbours", marker: "old",
+		patch: "@@\n@@\n-func old() {}\n+var old = func() {}\n",
+		src: `package p
+
+//go:generate stringer -type=T
+type T int //nolint:unused
+
+func old() {}
+
+//go:noinline
+func keep() {} //nolint:deadcode
+
+//
+var empty = 1
+
+func old() {}
+
+//line x.go:10
+var z = 2
+`},
 	{name: "two-changes", marker: "old", fixed: "gone",
 		patch: "@@\nvar x expression\n@@\n-old(x)\n+mid(x)\n\n@@\n@@\n-func gone() {}\n+var gone = func() {}\n",
 		src: `package p
